@@ -293,4 +293,17 @@ theorem enumerateFrom_map_snd {α : Type} (t : List α) (i : Int) :
   | nil => rfl
   | cons x t ih => simp [enumerateFrom, ih]
 
+/-- `sep.join(ws)` of the prelude is `List.intercalate` -/
+theorem join_eq_intercalate' {α : Type} (sep : List α) (ws : List (List α)) :
+    Pre.join sep ws = sep.intercalate ws := by
+  induction ws with
+  | nil => rfl
+  | cons w t ih =>
+    cases t with
+    | nil => simp [Pre.join, List.intercalate]
+    | cons w2 t2 =>
+      simp only [Pre.join] at ih ⊢
+      rw [ih]
+      simp [List.intercalate, List.intersperse]
+
 end Wz.Pre
